@@ -2,6 +2,7 @@
 Well-formedness of the nested-map reference model and helper lemmas (C04, C15).
 -/
 import Bolt.Spec.NestedMap
+import Bolt.Model.Compact
 namespace Bolt
 
 mutual
@@ -34,5 +35,979 @@ def EntsKeysOK : Ents → Prop
   | [] => True
   | (k, v) :: r => k ≠ [] ∧ (v.isBucket = false → k.length ≤ maxKeySize) ∧ KeysOK v ∧ EntsKeysOK r
 end
+
+/-! ### `Bytes.lt` is a strict total order -/
+
+theorem Bytes.lt_irrefl : ∀ a : Bytes, Bytes.lt a a = false
+  | [] => rfl
+  | a :: as => by simp [Bytes.lt, UInt8.lt_irrefl, Bytes.lt_irrefl as]
+
+theorem Bytes.lt_trans : ∀ {a b c : Bytes}, Bytes.lt a b = true → Bytes.lt b c = true → Bytes.lt a c = true
+  | [], [], _, h, _ => by simp [Bytes.lt] at h
+  | [], _ :: _, [], _, h => by simp [Bytes.lt] at h
+  | [], _ :: _, _ :: _, _, _ => by simp [Bytes.lt]
+  | _ :: _, [], _, h, _ => by simp [Bytes.lt] at h
+  | _ :: _, _ :: _, [], _, h => by simp [Bytes.lt] at h
+  | x :: a, y :: b, z :: c, h1, h2 => by
+    simp only [Bytes.lt] at h1 h2 ⊢
+    by_cases hxy : x < y
+    · by_cases hyz : y < z
+      · simp [UInt8.lt_trans hxy hyz]
+      · simp only [hyz, if_false] at h2
+        by_cases hzy : z < y
+        · simp [hzy] at h2
+        · have : y = z := UInt8.le_antisymm (UInt8.not_lt.mp hzy) (UInt8.not_lt.mp hyz)
+          subst this; simp [hxy]
+    · simp only [hxy, if_false] at h1
+      by_cases hyx : y < x
+      · simp [hyx] at h1
+      · have : x = y := UInt8.le_antisymm (UInt8.not_lt.mp hyx) (UInt8.not_lt.mp hxy)
+        subst this
+        simp only [hyx, if_false] at h1
+        by_cases hyz : x < z
+        · simp [hyz]
+        · simp only [hyz, if_false] at h2 ⊢
+          by_cases hzy : z < x
+          · simp [hzy] at h2
+          · simp only [hzy, if_false] at h2 ⊢
+            exact Bytes.lt_trans h1 h2
+
+theorem Bytes.lt_asymm {a b : Bytes} (h : Bytes.lt a b = true) : Bytes.lt b a = false := by
+  cases hb : Bytes.lt b a with
+  | false => rfl
+  | true => have := Bytes.lt_trans h hb; rw [Bytes.lt_irrefl] at this; exact this.symm
+
+theorem Bytes.lt_ne {a b : Bytes} (h : Bytes.lt a b = true) : a ≠ b := by
+  intro hab; subst hab; rw [Bytes.lt_irrefl] at h; exact Bool.noConfusion h
+
+theorem Bytes.lt_total : ∀ {a b : Bytes}, Bytes.lt a b = false → a ≠ b → Bytes.lt b a = true
+  | [], [], _, h => absurd rfl h
+  | [], _ :: _, h, _ => by simp [Bytes.lt] at h
+  | _ :: _, [], _, _ => by simp [Bytes.lt]
+  | x :: a, y :: b, h1, h2 => by
+    simp only [Bytes.lt] at h1 ⊢
+    by_cases hxy : x < y
+    · simp [hxy] at h1
+    · simp only [hxy, if_false] at h1 ⊢
+      by_cases hyx : y < x
+      · simp [hyx]
+      · have : x = y := UInt8.le_antisymm (UInt8.not_lt.mp hyx) (UInt8.not_lt.mp hxy)
+        subst this
+        simp only [hyx, if_false] at h1 ⊢
+        exact Bytes.lt_total h1 (fun hab => h2 (by rw [hab]))
+
+/-! ### entry lists -/
+
+@[simp] theorem entsLookup_nil (k : Bytes) : entsLookup [] k = none := rfl
+
+theorem entsLookup_cons (k' : Bytes) (v : SVal) (r : Ents) (k : Bytes) :
+    entsLookup ((k', v) :: r) k = if k' = k then some v else entsLookup r k := by
+  unfold entsLookup
+  by_cases h : k' = k <;> simp [h]
+
+/-- strictly ascending keys, as `Pairwise` -/
+def EntsSortedP (e : Ents) : Prop := e.Pairwise (fun a b => Bytes.lt a.1 b.1 = true)
+
+theorem entsSorted_iff : ∀ e : Ents, EntsSorted e ↔ EntsSortedP e
+  | [] => by simp [EntsSorted, EntsSortedP]
+  | [_] => by simp [EntsSorted, EntsSortedP]
+  | (k, v) :: (k', v') :: r => by
+    have ih := entsSorted_iff ((k', v') :: r)
+    rw [EntsSorted, ih]
+    unfold EntsSortedP
+    constructor
+    · intro ⟨h1, h2⟩
+      refine List.pairwise_cons.mpr ⟨?_, h2⟩
+      intro a ha
+      rcases List.mem_cons.mp ha with rfl | ha
+      · exact h1
+      · exact Bytes.lt_trans h1 ((List.pairwise_cons.mp h2).1 a ha)
+    · intro h
+      have := List.pairwise_cons.mp h
+      exact ⟨this.1 _ (List.mem_cons_self ..), this.2⟩
+
+theorem entsWF_iff : ∀ e : Ents, EntsWF e ↔ ∀ p ∈ e, SWF p.2
+  | [] => by simp [EntsWF]
+  | (k, v) :: r => by
+    rw [EntsWF, entsWF_iff r]; simp
+
+theorem swf_bkt (s : Nat) (e : Ents) : SWF (.bkt s e) ↔ EntsSortedP e ∧ ∀ p ∈ e, SWF p.2 := by
+  rw [SWF, entsSorted_iff, entsWF_iff]
+
+theorem entsLookup_insert_same (k : Bytes) (v : SVal) : ∀ e : Ents, entsLookup (entsInsert k v e) k = some v
+  | [] => by simp [entsInsert, entsLookup_cons]
+  | (k', v') :: r => by
+    unfold entsInsert
+    by_cases h1 : k = k'
+    · simp [h1, entsLookup_cons]
+    · have h1' : (k == k') = false := by simpa using h1
+      simp only [h1']
+      by_cases h2 : Bytes.lt k k' = true
+      · simp [h2, entsLookup_cons]
+      · simp only [h2, Bool.false_eq_true, if_false]
+        rw [entsLookup_cons, if_neg (fun h => h1 h.symm)]
+        exact entsLookup_insert_same k v r
+
+theorem entsLookup_insert_other (k : Bytes) (v : SVal) {k2 : Bytes} (hne : k2 ≠ k) :
+    ∀ e : Ents, entsLookup (entsInsert k v e) k2 = entsLookup e k2
+  | [] => by simp [entsInsert, entsLookup_cons, Ne.symm hne]
+  | (k', v') :: r => by
+    unfold entsInsert
+    by_cases h1 : k = k'
+    · subst h1; simp [entsLookup_cons, Ne.symm hne]
+    · have h1' : (k == k') = false := by simpa using h1
+      simp only [h1']
+      by_cases h2 : Bytes.lt k k' = true
+      · simp [h2, entsLookup_cons, Ne.symm hne]
+      · simp only [h2, Bool.false_eq_true, if_false]
+        rw [entsLookup_cons, entsLookup_cons, entsLookup_insert_other k v hne r]
+
+theorem mem_entsInsert {k : Bytes} {v : SVal} {p : Bytes × SVal} :
+    ∀ {e : Ents}, p ∈ entsInsert k v e → p = (k, v) ∨ p ∈ e
+  | [], h => by simpa [entsInsert] using h
+  | (k', v') :: r, h => by
+    unfold entsInsert at h
+    by_cases h1 : k = k'
+    · have h1' : (k == k') = true := by simpa using h1
+      simp only [h1', if_true] at h
+      rcases List.mem_cons.mp h with h | h
+      · exact Or.inl h
+      · exact Or.inr (List.mem_cons_of_mem _ h)
+    · have h1' : (k == k') = false := by simpa using h1
+      simp only [h1'] at h
+      by_cases h2 : Bytes.lt k k' = true
+      · simp only [h2, if_true] at h
+        rcases List.mem_cons.mp h with h | h
+        · exact Or.inl h
+        · exact Or.inr h
+      · simp only [h2, Bool.false_eq_true, if_false] at h
+        rcases List.mem_cons.mp h with h | h
+        · exact Or.inr (h ▸ List.mem_cons_self ..)
+        · rcases mem_entsInsert h with h | h
+          · exact Or.inl h
+          · exact Or.inr (List.mem_cons_of_mem _ h)
+
+theorem entsInsert_sorted (k : Bytes) (v : SVal) : ∀ {e : Ents}, EntsSortedP e → EntsSortedP (entsInsert k v e)
+  | [], _ => by simp [entsInsert, EntsSortedP]
+  | (k', v') :: r, h => by
+    unfold EntsSortedP at h
+    have hc := List.pairwise_cons.mp h
+    unfold entsInsert
+    by_cases h1 : k = k'
+    · subst h1
+      simp only [beq_self_eq_true, if_true]
+      exact List.pairwise_cons.mpr ⟨hc.1, hc.2⟩
+    · have h1' : (k == k') = false := by simpa using h1
+      simp only [h1']
+      by_cases h2 : Bytes.lt k k' = true
+      · simp only [h2, if_true]
+        refine List.pairwise_cons.mpr ⟨?_, h⟩
+        intro a ha
+        rcases List.mem_cons.mp ha with rfl | ha
+        · exact h2
+        · exact Bytes.lt_trans h2 (hc.1 a ha)
+      · simp only [h2, Bool.false_eq_true, if_false]
+        have h3 : Bytes.lt k' k = true := Bytes.lt_total (by simpa using h2) h1
+        refine List.pairwise_cons.mpr ⟨?_, entsInsert_sorted k v hc.2⟩
+        intro a ha
+        rcases mem_entsInsert ha with rfl | ha
+        · exact h3
+        · exact hc.1 a ha
+
+theorem entsInsert_wf {k : Bytes} {v : SVal} {e : Ents} (hv : SWF v) (he : ∀ p ∈ e, SWF p.2) :
+    ∀ p ∈ entsInsert k v e, SWF p.2 := by
+  intro p hp
+  rcases mem_entsInsert hp with rfl | hp
+  · exact hv
+  · exact he p hp
+
+/-- inserting a key larger than all present keys appends at the end -/
+theorem entsInsert_append (k : Bytes) (v : SVal) :
+    ∀ {e : Ents}, (∀ p ∈ e, Bytes.lt p.1 k = true) → entsInsert k v e = e ++ [(k, v)]
+  | [], _ => rfl
+  | (k', v') :: r, h => by
+    have h0 : Bytes.lt k' k = true := h (k', v') (List.mem_cons_self ..)
+    have h1 : (k == k') = false := by
+      have := Bytes.lt_ne h0
+      simpa using (fun h => this h.symm)
+    have h2 : Bytes.lt k k' = false := Bytes.lt_asymm h0
+    unfold entsInsert
+    simp only [h1, h2, Bool.false_eq_true, if_false, List.cons_append]
+    rw [entsInsert_append k v (fun p hp => h p (List.mem_cons_of_mem _ hp))]
+
+theorem entsLookup_none_of_lt {k : Bytes} :
+    ∀ {e : Ents}, (∀ p ∈ e, Bytes.lt p.1 k = true) → entsLookup e k = none
+  | [], _ => rfl
+  | (k', v') :: r, h => by
+    have h0 : Bytes.lt k' k = true := h (k', v') (List.mem_cons_self ..)
+    rw [entsLookup_cons, if_neg (Bytes.lt_ne h0)]
+    exact entsLookup_none_of_lt (fun p hp => h p (List.mem_cons_of_mem _ hp))
+
+theorem entsLookup_erase_same (k : Bytes) : ∀ e : Ents, entsLookup (entsErase k e) k = none
+  | [] => rfl
+  | (k', v') :: r => by
+    unfold entsErase
+    by_cases h : k' = k
+    · simp only [List.filter_cons, h, beq_self_eq_true, Bool.not_true, Bool.false_eq_true, if_false]
+      exact entsLookup_erase_same k r
+    · have h' : (k' == k) = false := by simpa using h
+      simp only [List.filter_cons, h', Bool.not_false, if_true]
+      rw [entsLookup_cons, if_neg h]
+      exact entsLookup_erase_same k r
+
+theorem entsLookup_erase_other (k : Bytes) {k2 : Bytes} (hne : k2 ≠ k) :
+    ∀ e : Ents, entsLookup (entsErase k e) k2 = entsLookup e k2
+  | [] => rfl
+  | (k', v') :: r => by
+    unfold entsErase
+    by_cases h : k' = k
+    · simp only [List.filter_cons, h, beq_self_eq_true, Bool.not_true, Bool.false_eq_true, if_false]
+      rw [entsLookup_cons, if_neg (Ne.symm hne)]
+      exact entsLookup_erase_other k hne r
+    · have h' : (k' == k) = false := by simpa using h
+      simp only [List.filter_cons, h', Bool.not_false, if_true]
+      rw [entsLookup_cons, entsLookup_cons]
+      have := entsLookup_erase_other k hne r
+      unfold entsErase at this
+      rw [this]
+
+theorem entsErase_sorted (k : Bytes) {e : Ents} (h : EntsSortedP e) : EntsSortedP (entsErase k e) :=
+  List.Pairwise.filter _ h
+
+theorem mem_entsErase {k : Bytes} {e : Ents} {p : Bytes × SVal} (h : p ∈ entsErase k e) : p ∈ e :=
+  (List.mem_filter.mp h).1
+
+theorem entsLookup_mem {k : Bytes} {v : SVal} : ∀ {e : Ents}, entsLookup e k = some v → (k, v) ∈ e
+  | [], h => by simp at h
+  | (k', v') :: r, h => by
+    rw [entsLookup_cons] at h
+    by_cases hk : k' = k
+    · rw [if_pos hk] at h
+      cases h; subst hk; exact List.mem_cons_self ..
+    · rw [if_neg hk] at h
+      exact List.mem_cons_of_mem _ (entsLookup_mem h)
+
+theorem entsLookup_of_mem {k : Bytes} {v : SVal} :
+    ∀ {e : Ents}, EntsSortedP e → (k, v) ∈ e → entsLookup e k = some v
+  | [], _, h => by simp at h
+  | (k', v') :: r, hs, h => by
+    have hc := List.pairwise_cons.mp hs
+    rw [entsLookup_cons]
+    rcases List.mem_cons.mp h with h | h
+    · cases h; simp
+    · have := Bytes.lt_ne (hc.1 _ h)
+      rw [if_neg this]
+      exact entsLookup_of_mem hc.2 h
+
+/-! ### path navigation -/
+
+/-- apply `g` to the value(s) stored under key `k` (what `setBucketAt` does at each level) -/
+def entsUpdate (k : Bytes) (g : SVal → SVal) (e : Ents) : Ents :=
+  e.map (fun p => if p.1 == k then (p.1, g p.2) else p)
+
+theorem setBucketAt_cons (k : Bytes) (ks : List Bytes) (new : Nat × Ents) (s : Nat) (e : Ents) :
+    setBucketAt (k :: ks) new (.bkt s e) = .bkt s (entsUpdate k (setBucketAt ks new) e) := by
+  rw [setBucketAt]; rfl
+
+@[simp] theorem setBucketAt_nil (new : Nat × Ents) (s : Nat) (e : Ents) :
+    setBucketAt [] new (.bkt s e) = .bkt new.1 new.2 := by
+  cases new; rw [setBucketAt]
+
+@[simp] theorem setBucketAt_val (p : List Bytes) (new : Nat × Ents) (v : Bytes) :
+    setBucketAt p new (.val v) = .val v := by
+  cases p <;> rw [setBucketAt] <;> simp
+
+@[simp] theorem bucketAt_nil (s : Nat) (e : Ents) : bucketAt [] (.bkt s e) = some (s, e) := by
+  rw [bucketAt]
+
+@[simp] theorem bucketAt_val (p : List Bytes) (v : Bytes) : bucketAt p (.val v) = none := by
+  cases p <;> rw [bucketAt]
+
+theorem bucketAt_cons (k : Bytes) (ks : List Bytes) (s : Nat) (e : Ents) :
+    bucketAt (k :: ks) (.bkt s e) = (entsLookup e k).bind (bucketAt ks) := by
+  rw [bucketAt]; cases entsLookup e k <;> rfl
+
+theorem entsUpdate_cons (k : Bytes) (g : SVal → SVal) (k' : Bytes) (v : SVal) (r : Ents) :
+    entsUpdate k g ((k', v) :: r) = (if k' = k then (k', g v) else (k', v)) :: entsUpdate k g r := by
+  unfold entsUpdate
+  by_cases h : k' = k <;> simp [h]
+
+theorem entsLookup_update (k : Bytes) (g : SVal → SVal) (k2 : Bytes) :
+    ∀ e : Ents, entsLookup (entsUpdate k g e) k2 = if k2 = k then (entsLookup e k).map g else entsLookup e k2
+  | [] => by simp [entsUpdate]
+  | (k', v') :: r => by
+    rw [entsUpdate_cons]
+    have ih := entsLookup_update k g k2 r
+    by_cases h1 : k' = k
+    · subst h1
+      rw [if_pos rfl, entsLookup_cons, ih, entsLookup_cons, entsLookup_cons]
+      by_cases h2 : k' = k2
+      · subst h2; simp
+      · simp [h2, Ne.symm h2]
+    · rw [if_neg h1, entsLookup_cons, ih, entsLookup_cons, entsLookup_cons]
+      by_cases h2 : k2 = k
+      · subst h2; simp [h1]
+      · simp [h2]
+
+theorem entsUpdate_keys (k : Bytes) (g : SVal → SVal) (e : Ents) :
+    (entsUpdate k g e).map (·.1) = e.map (·.1) := by
+  unfold entsUpdate
+  rw [List.map_map]
+  apply List.map_congr_left
+  intro p _
+  by_cases h : p.1 = k <;> simp [h]
+
+theorem entsSortedP_iff_keys (e : Ents) :
+    EntsSortedP e ↔ (e.map (·.1)).Pairwise (fun a b => Bytes.lt a b = true) := by
+  unfold EntsSortedP; rw [List.pairwise_map]
+
+theorem entsUpdate_sorted (k : Bytes) (g : SVal → SVal) {e : Ents} (h : EntsSortedP e) :
+    EntsSortedP (entsUpdate k g e) := by
+  rw [entsSortedP_iff_keys, entsUpdate_keys, ← entsSortedP_iff_keys]; exact h
+
+theorem mem_entsUpdate {k : Bytes} {g : SVal → SVal} {e : Ents} {p : Bytes × SVal}
+    (h : p ∈ entsUpdate k g e) : p ∈ e ∨ ∃ v, (k, v) ∈ e ∧ p = (k, g v) := by
+  unfold entsUpdate at h
+  rcases List.mem_map.mp h with ⟨q, hq, rfl⟩
+  by_cases hk : q.1 = k
+  · right; refine ⟨q.2, ?_, ?_⟩
+    · rw [← hk]; exact hq
+    · simp [hk]
+  · left; simp [hk]; exact hq
+
+/-- on a sorted list only the (unique) entry found by `entsLookup` is touched -/
+theorem entsUpdate_congr {k : Bytes} {g g' : SVal → SVal} {e : Ents} (hs : EntsSortedP e)
+    (h : ∀ v, entsLookup e k = some v → g v = g' v) : entsUpdate k g e = entsUpdate k g' e := by
+  unfold entsUpdate
+  apply List.map_congr_left
+  intro p hp
+  by_cases hk : p.1 = k
+  · have : entsLookup e k = some p.2 := entsLookup_of_mem hs (by rw [← hk]; exact hp)
+    simp [hk, h _ this]
+  · simp [hk]
+
+theorem entsUpdate_id {k : Bytes} {g : SVal → SVal} {e : Ents} (hs : EntsSortedP e)
+    (h : ∀ v, entsLookup e k = some v → g v = v) : entsUpdate k g e = e := by
+  have : entsUpdate k g e = entsUpdate k id e := entsUpdate_congr hs h
+  rw [this]; unfold entsUpdate
+  conv => rhs; rw [← List.map_id e]
+  apply List.map_congr_left
+  intro p _
+  by_cases hk : p.1 = k
+  · subst hk; simp
+  · simp [hk]
+
+theorem entsUpdate_update (k : Bytes) (g g' : SVal → SVal) (e : Ents) :
+    entsUpdate k g (entsUpdate k g' e) = entsUpdate k (g ∘ g') e := by
+  unfold entsUpdate
+  rw [List.map_map]
+  apply List.map_congr_left
+  intro p _; by_cases hk : p.1 = k <;> simp [hk]
+
+theorem bucketAt_some_bkt {p : List Bytes} {r : SVal} {x : Nat × Ents} (h : bucketAt p r = some x) :
+    ∃ s e, r = .bkt s e := by
+  cases r with
+  | val v => simp at h
+  | bkt s e => exact ⟨s, e, rfl⟩
+
+/-- one step of navigation through an updated bucket -/
+theorem bucketAt_setBucketAt_step (k : Bytes) (q p : List Bytes) (x : Nat × Ents) (s : Nat) (e : Ents) :
+    bucketAt (k :: q) (setBucketAt (k :: p) x (.bkt s e)) =
+      (entsLookup e k).bind (fun v => bucketAt q (setBucketAt p x v)) := by
+  rw [setBucketAt_cons, bucketAt_cons, entsLookup_update, if_pos rfl]
+  cases entsLookup e k <;> rfl
+
+/-- reading at or below the replaced bucket sees the new bucket -/
+theorem bucketAt_setBucketAt_below (x : Nat × Ents) (q : List Bytes) :
+    ∀ (p : List Bytes) (r : SVal) (y : Nat × Ents), bucketAt p r = some y →
+      bucketAt (p ++ q) (setBucketAt p x r) = bucketAt q (.bkt x.1 x.2)
+  | [], r, y, h => by
+    obtain ⟨s, e, rfl⟩ := bucketAt_some_bkt h
+    simp
+  | k :: p, r, y, h => by
+    obtain ⟨s, e, rfl⟩ := bucketAt_some_bkt h
+    rw [List.cons_append, bucketAt_setBucketAt_step]
+    rw [bucketAt_cons] at h
+    cases hl : entsLookup e k with
+    | none => rw [hl] at h; simp at h
+    | some v =>
+      rw [hl] at h
+      exact bucketAt_setBucketAt_below x q p v y h
+
+theorem bucketAt_setBucketAt_same {p : List Bytes} {r : SVal} {y : Nat × Ents} (x : Nat × Ents)
+    (h : bucketAt p r = some y) : bucketAt p (setBucketAt p x r) = some x := by
+  have := bucketAt_setBucketAt_below x [] p r y h
+  simpa using this
+
+/-- reading strictly above the replaced bucket sees the same bucket with one entry updated -/
+theorem bucketAt_setBucketAt_above (x : Nat × Ents) (k : Bytes) (p : List Bytes) :
+    ∀ (q : List Bytes) (r : SVal) (s : Nat) (e : Ents), bucketAt q r = some (s, e) →
+      bucketAt q (setBucketAt (q ++ k :: p) x r) = some (s, entsUpdate k (setBucketAt p x) e)
+  | [], r, s, e, h => by
+    obtain ⟨s', e', rfl⟩ := bucketAt_some_bkt h
+    simp at h
+    obtain ⟨rfl, rfl⟩ := h
+    rw [List.nil_append, setBucketAt_cons, bucketAt_nil]
+  | k' :: q, r, s, e, h => by
+    obtain ⟨s', e', rfl⟩ := bucketAt_some_bkt h
+    rw [List.cons_append, bucketAt_setBucketAt_step]
+    rw [bucketAt_cons] at h
+    cases hl : entsLookup e' k' with
+    | none => rw [hl] at h; simp at h
+    | some v =>
+      rw [hl] at h
+      exact bucketAt_setBucketAt_above x k p q v s e h
+
+/-- reading along a diverging path is unaffected -/
+theorem bucketAt_setBucketAt_diverge (x : Nat × Ents) {a b : Bytes} (hab : a ≠ b) (p q : List Bytes) :
+    ∀ (c : List Bytes) (r : SVal),
+      bucketAt (c ++ b :: q) (setBucketAt (c ++ a :: p) x r) = bucketAt (c ++ b :: q) r
+  | [], r => by
+    cases r with
+    | val v => simp
+    | bkt s e =>
+      rw [List.nil_append, List.nil_append, setBucketAt_cons, bucketAt_cons, bucketAt_cons,
+        entsLookup_update, if_neg (Ne.symm hab)]
+  | k :: c, r => by
+    cases r with
+    | val v => simp
+    | bkt s e =>
+      rw [List.cons_append, List.cons_append, bucketAt_setBucketAt_step, bucketAt_cons]
+      cases entsLookup e k with
+      | none => rfl
+      | some v => exact bucketAt_setBucketAt_diverge x hab p q c v
+
+theorem bucketAt_append (q : List Bytes) :
+    ∀ (p : List Bytes) (r : SVal),
+      bucketAt (p ++ q) r = (bucketAt p r).bind (fun y => bucketAt q (.bkt y.1 y.2))
+  | [], r => by
+    cases r with
+    | val v => simp
+    | bkt s e => simp
+  | k :: p, r => by
+    cases r with
+    | val v => simp
+    | bkt s e =>
+      rw [List.cons_append, bucketAt_cons, bucketAt_cons]
+      cases entsLookup e k with
+      | none => rfl
+      | some v => exact bucketAt_append q p v
+
+theorem bucketAt_snoc {p : List Bytes} {r : SVal} {s : Nat} {e : Ents} (k : Bytes)
+    (h : bucketAt p r = some (s, e)) :
+    bucketAt (p ++ [k]) r = (entsLookup e k).bind (bucketAt []) := by
+  rw [bucketAt_append, h]; simp [bucketAt_cons]
+
+/-- any two paths: one extends the other, or they diverge after a common prefix -/
+theorem path_cases : ∀ (p q : List Bytes),
+    (∃ q', q = p ++ q') ∨ (∃ k p', p = q ++ k :: p') ∨
+    (∃ c a p' b q', a ≠ b ∧ p = c ++ a :: p' ∧ q = c ++ b :: q')
+  | [], q => Or.inl ⟨q, rfl⟩
+  | a :: p, [] => Or.inr (Or.inl ⟨a, p, rfl⟩)
+  | a :: p, b :: q => by
+    by_cases hab : a = b
+    · subst hab
+      rcases path_cases p q with ⟨q', h⟩ | ⟨k, p', h⟩ | ⟨c, x, p', y, q', hxy, h1, h2⟩
+      · exact Or.inl ⟨q', by rw [h]; rfl⟩
+      · exact Or.inr (Or.inl ⟨k, p', by rw [h]; rfl⟩)
+      · exact Or.inr (Or.inr ⟨a :: c, x, p', y, q', hxy, by rw [h1]; rfl, by rw [h2]; rfl⟩)
+    · exact Or.inr (Or.inr ⟨[], a, p, b, q, hab, rfl, rfl⟩)
+
+/-! ### well-formedness along paths -/
+
+theorem bucketAt_wf : ∀ {p : List Bytes} {r : SVal} {s : Nat} {e : Ents}, SWF r → bucketAt p r = some (s, e) →
+    EntsSortedP e ∧ ∀ q ∈ e, SWF q.2
+  | [], r, s, e, hr, h => by
+    obtain ⟨s', e', rfl⟩ := bucketAt_some_bkt h
+    simp at h; obtain ⟨rfl, rfl⟩ := h
+    exact (swf_bkt _ _).mp hr
+  | k :: p, r, s, e, hr, h => by
+    obtain ⟨s', e', rfl⟩ := bucketAt_some_bkt h
+    rw [bucketAt_cons] at h
+    cases hl : entsLookup e' k with
+    | none => rw [hl] at h; simp at h
+    | some v =>
+      rw [hl] at h
+      have hv : SWF v := ((swf_bkt _ _).mp hr).2 _ (entsLookup_mem hl)
+      exact bucketAt_wf hv h
+
+theorem setBucketAt_wf (x : Nat × Ents) (hx1 : EntsSortedP x.2) (hx2 : ∀ q ∈ x.2, SWF q.2) :
+    ∀ (p : List Bytes) (r : SVal), SWF r → SWF (setBucketAt p x r)
+  | [], r, hr => by
+    cases r with
+    | val v => simpa using hr
+    | bkt s e => rw [setBucketAt_nil, swf_bkt]; exact ⟨hx1, hx2⟩
+  | k :: p, r, hr => by
+    cases r with
+    | val v => simpa using hr
+    | bkt s e =>
+      rw [setBucketAt_cons, swf_bkt]
+      have ⟨h1, h2⟩ := (swf_bkt _ _).mp hr
+      refine ⟨entsUpdate_sorted _ _ h1, ?_⟩
+      intro q hq
+      rcases mem_entsUpdate hq with hq | ⟨v, hv, rfl⟩
+      · exact h2 q hq
+      · exact setBucketAt_wf x hx1 hx2 p v (h2 _ hv)
+
+/-! ### algebra of `setBucketAt` -/
+
+theorem setBucketAt_setBucketAt (x y : Nat × Ents) :
+    ∀ (p : List Bytes) (r : SVal), setBucketAt p x (setBucketAt p y r) = setBucketAt p x r
+  | [], r => by
+    cases r with
+    | val v => simp
+    | bkt s e => simp
+  | k :: p, r => by
+    cases r with
+    | val v => simp
+    | bkt s e =>
+      rw [setBucketAt_cons, setBucketAt_cons, setBucketAt_cons, entsUpdate_update]
+      congr 1
+      unfold entsUpdate
+      apply List.map_congr_left
+      intro q _
+      by_cases hk : q.1 = k
+      · simp [hk, setBucketAt_setBucketAt x y p q.2]
+      · simp [hk]
+
+theorem setBucketAt_self : ∀ {p : List Bytes} {r : SVal} {x : Nat × Ents}, SWF r → bucketAt p r = some x →
+    setBucketAt p x r = r
+  | [], r, x, _, h => by
+    obtain ⟨s', e', rfl⟩ := bucketAt_some_bkt h
+    simp at h; subst h; simp
+  | k :: p, r, x, hr, h => by
+    obtain ⟨s', e', rfl⟩ := bucketAt_some_bkt h
+    have ⟨h1, h2⟩ := (swf_bkt _ _).mp hr
+    rw [setBucketAt_cons, entsUpdate_id h1]
+    intro v hv
+    rw [bucketAt_cons, hv] at h
+    exact setBucketAt_self (h2 _ (entsLookup_mem hv)) h
+
+/-- replacing a child bucket = replacing the parent with the child entry updated -/
+theorem setBucketAt_snoc (k : Bytes) (x : Nat × Ents) :
+    ∀ {p : List Bytes} {r : SVal} {s : Nat} {e : Ents}, SWF r → bucketAt p r = some (s, e) →
+      setBucketAt (p ++ [k]) x r = setBucketAt p (s, entsUpdate k (setBucketAt [] x) e) r
+  | [], r, s, e, _, h => by
+    obtain ⟨s', e', rfl⟩ := bucketAt_some_bkt h
+    simp at h; obtain ⟨rfl, rfl⟩ := h
+    rw [List.nil_append, setBucketAt_cons, setBucketAt_nil]
+  | k' :: p, r, s, e, hr, h => by
+    obtain ⟨s', e', rfl⟩ := bucketAt_some_bkt h
+    have ⟨h1, h2⟩ := (swf_bkt _ _).mp hr
+    rw [List.cons_append, setBucketAt_cons, setBucketAt_cons]
+    congr 1
+    apply entsUpdate_congr h1
+    intro v hv
+    rw [bucketAt_cons, hv] at h
+    exact setBucketAt_snoc k x (h2 _ (entsLookup_mem hv)) h
+
+theorem isPrefixOf_iff : ∀ (p q : List Bytes), isPrefixOf p q = true ↔ ∃ t, q = p ++ t
+  | [], q => by simp [isPrefixOf]
+  | a :: p, [] => by simp [isPrefixOf]
+  | a :: p, b :: q => by
+    rw [isPrefixOf, Bool.and_eq_true, isPrefixOf_iff p q]
+    constructor
+    · rintro ⟨hab, t, rfl⟩
+      have : a = b := by simpa using hab
+      exact ⟨t, by rw [this]; rfl⟩
+    · rintro ⟨t, ht⟩
+      rw [List.cons_append] at ht
+      injection ht with h1 h2
+      exact ⟨by simp [h1], t, h2⟩
+
+/-! ### inversion of successful API calls -/
+
+theorem apiPut_ok {r : SVal} {p : List Bytes} {k v : Bytes} {r' : SVal} (h : apiPut r p k v = .ok r') :
+    ∃ s e, bucketAt p r = some (s, e) ∧ p ≠ [] ∧ k ≠ [] ∧ k.length ≤ maxKeySize ∧ v.length ≤ maxValueSize ∧
+      r' = setBucketAt p (s, entsInsert k (.val v) e) r := by
+  unfold apiPut at h
+  split at h
+  · cases h
+  · rename_i s e hb
+    refine ⟨s, e, hb, ?_⟩
+    split at h; · cases h
+    split at h; · cases h
+    split at h; · cases h
+    split at h; · cases h
+    rename_i h1 h2 h3 h4
+    split at h
+    · cases h
+    · cases h
+      refine ⟨?_, ?_, by omega, by omega, rfl⟩
+      · cases p <;> simp at h1 ⊢
+      · cases k <;> simp at h2 ⊢
+
+theorem apiPut_eq_ok {r : SVal} {p : List Bytes} {k v : Bytes} {s : Nat} {e : Ents}
+    (hb : bucketAt p r = some (s, e)) (hp : p ≠ []) (hk : k ≠ []) (hkl : k.length ≤ maxKeySize)
+    (hvl : v.length ≤ maxValueSize) (hl : ∀ s' e', entsLookup e k ≠ some (.bkt s' e')) :
+    apiPut r p k v = .ok (setBucketAt p (s, entsInsert k (.val v) e) r) := by
+  unfold apiPut
+  rw [hb]
+  have h1 : p.isEmpty = false := by cases p <;> simp at hp ⊢
+  have h2 : k.isEmpty = false := by cases k <;> simp at hk ⊢
+  have h3 : ¬ k.length > maxKeySize := by omega
+  have h4 : ¬ v.length > maxValueSize := by omega
+  simp only [h1, h2, h3, h4, Bool.false_eq_true, if_false]
+
+/-- what `Get` returns for a bucket's entry list -/
+def entsGet (e : Ents) (k : Bytes) : Option Bytes :=
+  match entsLookup e k with
+  | some (.val v) => some v
+  | _ => none
+
+theorem apiGet_eq {r : SVal} {p : List Bytes} {s : Nat} {e : Ents} (k : Bytes)
+    (hb : bucketAt p r = some (s, e)) (hp : p ≠ []) : apiGet r p k = .ok (entsGet e k) := by
+  unfold apiGet
+  rw [hb]
+  have h1 : p.isEmpty = false := by cases p <;> simp at hp ⊢
+  simp only [h1, Bool.false_eq_true, if_false]
+  unfold entsGet
+  split <;> simp_all
+
+theorem apiDelete_ok {r : SVal} {p : List Bytes} {k : Bytes} {r' : SVal} (h : apiDelete r p k = .ok r') :
+    ∃ s e, bucketAt p r = some (s, e) ∧ p ≠ [] ∧
+      ((entsLookup e k = none ∧ r' = r) ∨
+       ((∃ v, entsLookup e k = some (.val v)) ∧ r' = setBucketAt p (s, entsErase k e) r)) := by
+  unfold apiDelete at h
+  split at h
+  · cases h
+  · rename_i s e hb
+    refine ⟨s, e, hb, ?_⟩
+    split at h; · cases h
+    rename_i h1
+    refine ⟨by cases p <;> simp at h1 ⊢, ?_⟩
+    split at h
+    · rename_i hl; cases h; exact Or.inl ⟨hl, rfl⟩
+    · cases h
+    · rename_i v hl; cases h; exact Or.inr ⟨⟨v, hl⟩, rfl⟩
+
+theorem apiCreateBucket_ok {r : SVal} {p : List Bytes} {k : Bytes} {b : Bool} {r' : SVal}
+    (h : apiCreateBucket r p k b = .ok r') :
+    ∃ s e, bucketAt p r = some (s, e) ∧ k ≠ [] ∧
+      ((b = true ∧ (∃ s' e', entsLookup e k = some (.bkt s' e')) ∧ r' = r) ∨
+       (entsLookup e k = none ∧ r' = setBucketAt p (s, entsInsert k (.bkt 0 []) e) r)) := by
+  unfold apiCreateBucket at h
+  split at h
+  · cases h
+  · rename_i s e hb
+    refine ⟨s, e, hb, ?_⟩
+    split at h; · cases h
+    rename_i h1
+    refine ⟨by cases k <;> simp at h1 ⊢, ?_⟩
+    split at h
+    · rename_i s' e' hl
+      split at h
+      · rename_i hb'; cases h; exact Or.inl ⟨hb', ⟨s', e', hl⟩, rfl⟩
+      · cases h
+    · cases h
+    · rename_i hl; cases h; exact Or.inr ⟨hl, rfl⟩
+
+theorem apiCreateBucket_eq_ok {r : SVal} {p : List Bytes} {k : Bytes} {b : Bool} {s : Nat} {e : Ents}
+    (hb : bucketAt p r = some (s, e)) (hk : k ≠ []) (hl : entsLookup e k = none) :
+    apiCreateBucket r p k b = .ok (setBucketAt p (s, entsInsert k (.bkt 0 []) e) r) := by
+  unfold apiCreateBucket
+  rw [hb]
+  have h2 : k.isEmpty = false := by cases k <;> simp at hk ⊢
+  simp only [h2, Bool.false_eq_true, if_false, hl]
+
+theorem apiDeleteBucket_ok {r : SVal} {p : List Bytes} {k : Bytes} {r' : SVal}
+    (h : apiDeleteBucket r p k = .ok r') :
+    ∃ s e, bucketAt p r = some (s, e) ∧ (∃ s' e', entsLookup e k = some (.bkt s' e')) ∧
+      r' = setBucketAt p (s, entsErase k e) r := by
+  unfold apiDeleteBucket at h
+  split at h
+  · cases h
+  · rename_i s e hb
+    refine ⟨s, e, hb, ?_⟩
+    split at h
+    · cases h
+    · cases h
+    · rename_i s' e' hl; cases h; exact ⟨⟨s', e', hl⟩, rfl⟩
+
+theorem apiSetSequence_ok {r : SVal} {p : List Bytes} {n : Nat} {r' : SVal}
+    (h : apiSetSequence r p n = .ok r') :
+    ∃ s e, bucketAt p r = some (s, e) ∧ p ≠ [] ∧ r' = setBucketAt p (n, e) r := by
+  unfold apiSetSequence at h
+  split at h
+  · cases h
+  · rename_i s e hb
+    refine ⟨s, e, hb, ?_⟩
+    split at h; · cases h
+    rename_i h1
+    cases h
+    exact ⟨by cases p <;> simp at h1 ⊢, rfl⟩
+
+theorem apiSetSequence_eq_ok {r : SVal} {p : List Bytes} {n : Nat} {s : Nat} {e : Ents}
+    (hb : bucketAt p r = some (s, e)) (hp : p ≠ []) :
+    apiSetSequence r p n = .ok (setBucketAt p (n, e) r) := by
+  unfold apiSetSequence
+  rw [hb]
+  have h1 : p.isEmpty = false := by cases p <;> simp at hp ⊢
+  simp only [h1, Bool.false_eq_true, if_false]
+
+theorem apiSequence_eq {r : SVal} {p : List Bytes} {s : Nat} {e : Ents}
+    (hb : bucketAt p r = some (s, e)) (hp : p ≠ []) : apiSequence r p = .ok s := by
+  unfold apiSequence
+  rw [hb]
+  have h1 : p.isEmpty = false := by cases p <;> simp at hp ⊢
+  simp only [h1, Bool.false_eq_true, if_false]
+
+theorem apiNextSequence_ok {r : SVal} {p : List Bytes} {n : Nat} {r' : SVal}
+    (h : apiNextSequence r p = .ok (r', n)) :
+    ∃ s e, bucketAt p r = some (s, e) ∧ p ≠ [] ∧ n = (s + 1) % 2^64 ∧ r' = setBucketAt p (n, e) r := by
+  unfold apiNextSequence at h
+  split at h
+  · cases h
+  · rename_i s e hb
+    refine ⟨s, e, hb, ?_⟩
+    split at h; · cases h
+    rename_i h1
+    cases h
+    exact ⟨by cases p <;> simp at h1 ⊢, rfl, rfl⟩
+
+theorem apiMoveBucket_ok {r : SVal} {src : List Bytes} {k : Bytes} {dst : List Bytes} {r' : SVal}
+    (h : apiMoveBucket r src k dst = .ok r') :
+    ∃ s e ds0 de ms me ds de1, bucketAt src r = some (s, e) ∧ bucketAt dst r = some (ds0, de) ∧
+      entsLookup e k = some (.bkt ms me) ∧ src ≠ dst ∧ entsLookup de k = none ∧
+      isPrefixOf (src ++ [k]) dst = false ∧
+      bucketAt dst (setBucketAt src (s, entsErase k e) r) = some (ds, de1) ∧
+      r' = setBucketAt dst (ds, entsInsert k (.bkt ms me) de1) (setBucketAt src (s, entsErase k e) r) := by
+  unfold apiMoveBucket at h
+  split at h
+  · cases h
+  · cases h
+  · rename_i s e ds0 de hb1 hb2
+    refine ⟨s, e, ds0, de, ?_⟩
+    split at h
+    · cases h
+    · cases h
+    · rename_i ms me hl
+      refine ⟨ms, me, ?_⟩
+      split at h; · cases h
+      rename_i hne
+      split at h
+      · cases h
+      · cases h
+      · rename_i hl2
+        split at h; · cases h
+        rename_i hpre
+        simp only at h
+        split at h
+        · cases h
+        · rename_i ds de1 hb3
+          cases h
+          exact ⟨ds, de1, hb1, hb2, hl, by simpa using hne, hl2, by simpa using hpre, hb3, rfl⟩
+
+/-- after a successful move the source entry is gone, wherever the destination lies -/
+theorem moveBucket_src_gone {r : SVal} {src dst : List Bytes} {k : Bytes} {s ds0 ds : Nat}
+    {e de de1 : Ents} {b : SVal}
+    (hb1 : bucketAt src r = some (s, e)) (hb2 : bucketAt dst r = some (ds0, de))
+    (hne : src ≠ dst) (hl2 : entsLookup de k = none) (hpre : isPrefixOf (src ++ [k]) dst = false)
+    (hb3 : bucketAt dst (setBucketAt src (s, entsErase k e) r) = some (ds, de1)) :
+    bucketAt (src ++ [k]) (setBucketAt dst (ds, entsInsert k b de1) (setBucketAt src (s, entsErase k e) r)) = none := by
+  have hsrc1 : bucketAt src (setBucketAt src (s, entsErase k e) r) = some (s, entsErase k e) :=
+    bucketAt_setBucketAt_same _ hb1
+  have hgone1 : bucketAt (src ++ [k]) (setBucketAt src (s, entsErase k e) r) = none := by
+    rw [bucketAt_snoc k hsrc1, entsLookup_erase_same]; rfl
+  rcases path_cases src dst with ⟨t, ht⟩ | ⟨k2, t, ht⟩ | ⟨c, a, p', b', q', hab, h1, h2⟩
+  · -- dst at or below src
+    cases t with
+    | nil => exact absurd (by simpa using ht.symm) hne
+    | cons k2 t =>
+      have hk2 : k2 ≠ k := by
+        intro hk; subst hk
+        have : isPrefixOf (src ++ [k2]) dst = true :=
+          (isPrefixOf_iff _ _).mpr ⟨t, by rw [ht]; simp⟩
+        rw [this] at hpre; cases hpre
+      subst ht
+      rw [bucketAt_snoc k (bucketAt_setBucketAt_above _ k2 t src _ s _ hsrc1),
+        entsLookup_update, if_neg (Ne.symm hk2), entsLookup_erase_same]
+      rfl
+  · -- dst strictly above src
+    have hk2 : k2 ≠ k := by
+      intro hk; subst hk
+      rw [ht, bucketAt_append, hb2] at hb1
+      simp [bucketAt_cons, hl2] at hb1
+    subst ht
+    rw [List.append_assoc, bucketAt_setBucketAt_below _ _ dst _ _ hb3]
+    rw [List.append_assoc, bucketAt_append, hb3] at hgone1
+    simp only [Option.bind_some] at hgone1
+    rw [List.cons_append, bucketAt_cons] at hgone1 ⊢
+    rw [entsLookup_insert_other _ _ hk2]
+    exact hgone1
+  · -- diverging paths
+    subst h1 h2
+    rw [List.append_assoc, List.cons_append, bucketAt_setBucketAt_diverge _ (Ne.symm hab)]
+    rw [List.append_assoc, List.cons_append] at hgone1
+    exact hgone1
+
+/-! ### compaction walk -/
+open Compact
+
+/-- induction over an entry list, with the nested buckets' entry lists as sub-structures -/
+theorem ents_induction {P : Ents → Prop} (nil : P [])
+    (consVal : ∀ k v rest, P rest → P ((k, .val v) :: rest))
+    (consBkt : ∀ k s e rest, P e → P rest → P ((k, .bkt s e) :: rest)) : ∀ e, P e
+  | [] => nil
+  | (k, .val v) :: rest => consVal k v rest (ents_induction nil consVal consBkt rest)
+  | (k, .bkt s e) :: rest =>
+    consBkt k s e rest (ents_induction nil consVal consBkt e) (ents_induction nil consVal consBkt rest)
+
+theorem visit_put_ok {limit : Nat} {a : Acc} {path : List Bytes} {k x : Bytes} {d1 : SVal}
+    (ha : a.err = none) (h : apiPut a.dst path k x = .ok d1) :
+    (visit limit a path k (some x) 0).err = none ∧ (visit limit a path k (some x) 0).dst = d1 := by
+  unfold visit
+  simp [ha, h]
+
+theorem visit_bucket_ok {limit : Nat} {a : Acc} {path : List Bytes} {k : Bytes} {seq : Nat} {d1 d2 : SVal}
+    (ha : a.err = none) (h1 : apiCreateBucket a.dst path k false = .ok d1)
+    (h2 : apiSetSequence d1 (path ++ [k]) seq = .ok d2) :
+    (visit limit a path k none seq).err = none ∧ (visit limit a path k none seq).dst = d2 := by
+  unfold visit
+  simp [ha, h1, h2]
+
+theorem visit_commits_unlimited (a : Acc) (path : List Bytes) (k : Bytes) (v : Option Bytes) (seq : Nat) :
+    (visit 0 a path k v seq).commits = a.commits := by
+  unfold visit
+  split
+  · rfl
+  · simp only [ne_eq, not_true_eq_false, and_false, if_false]
+    split
+    · split
+      · rfl
+      · split <;> rfl
+    · split <;> rfl
+open Compact
+
+theorem entsUpdate_append_last {k : Bytes} (g : SVal → SVal) (b : SVal) {pre : Ents}
+    (h : ∀ q ∈ pre, Bytes.lt q.1 k = true) : entsUpdate k g (pre ++ [(k, b)]) = pre ++ [(k, g b)] := by
+  unfold entsUpdate
+  rw [List.map_append]
+  congr 1
+  · conv => rhs; rw [← List.map_id pre]
+    apply List.map_congr_left
+    intro q hq
+    have : q.1 ≠ k := Bytes.lt_ne (h q hq)
+    simp [this]
+  · simp
+
+theorem entsKeysOK_cons (k : Bytes) (v : SVal) (r : Ents) :
+    EntsKeysOK ((k, v) :: r) ↔ k ≠ [] ∧ (v.isBucket = false → k.length ≤ maxKeySize) ∧ KeysOK v ∧ EntsKeysOK r := by
+  rw [EntsKeysOK]
+
+/-- **the walk rebuilds a bucket**: if the destination bucket at `path` holds exactly the
+    already-copied prefix `pre` (whose keys are all smaller than the remaining source keys),
+    then walking the remaining source entries `ents` raises no error and leaves the
+    destination equal to the old one with the bucket at `path` replaced by `pre ++ ents`. -/
+theorem walkEnts_spec (limit : Nat) : ∀ (ents : Ents) (path : List Bytes) (a : Acc) (s : Nat) (pre : Ents),
+    a.err = none → SWF a.dst → bucketAt path a.dst = some (s, pre) → EntsSortedP (pre ++ ents) →
+    (∀ q ∈ ents, SWF q.2) → EntsKeysOK ents → (path = [] → ∀ q ∈ ents, q.2.isBucket = true) →
+    (walkEnts limit path ents a).err = none ∧
+      (walkEnts limit path ents a).dst = setBucketAt path (s, pre ++ ents) a.dst := by
+  intro ents
+  induction ents using ents_induction with
+  | nil =>
+    intro path a s pre ha hwf hb _ _ _ _
+    rw [walkEnts.eq_1, List.append_nil, setBucketAt_self hwf hb]
+    exact ⟨ha, rfl⟩
+  | consVal k v rest ih =>
+    intro path a s pre ha hwf hb hs hw hk hroot
+    have hpath : path ≠ [] := by
+      intro hp
+      have := hroot hp _ (List.mem_cons_self ..)
+      simp [SVal.isBucket] at this
+    rw [entsKeysOK_cons] at hk
+    obtain ⟨hk1, hk2, hk3, hk4⟩ := hk
+    have hk2' : k.length ≤ maxKeySize := hk2 rfl
+    have hk3' : v.length ≤ maxValueSize := by rw [KeysOK] at hk3; exact hk3
+    have hs' : EntsSortedP ((pre ++ [(k, SVal.val v)]) ++ rest) := by
+      rw [List.append_assoc]; exact hs
+    have hs1 := List.pairwise_append.mp hs
+    have hlt : ∀ q ∈ pre, Bytes.lt q.1 k = true := fun q hq => hs1.2.2 q hq _ (List.mem_cons_self ..)
+    have hlk : entsLookup pre k = none := entsLookup_none_of_lt hlt
+    have hput := apiPut_eq_ok (v := v) hb hpath hk1 hk2' hk3' (by rw [hlk]; intro _ _ h; cases h)
+    rw [entsInsert_append k _ hlt] at hput
+    obtain ⟨he, hd⟩ := visit_put_ok (limit := limit) ha hput
+    have ⟨hp1, hp2⟩ := bucketAt_wf hwf hb
+    have hwf1 : SWF (visit limit a path k (some v) 0).dst := by
+      rw [hd]
+      refine setBucketAt_wf (s, pre ++ [(k, SVal.val v)]) (List.pairwise_append.mp hs').1 ?_ _ _ hwf
+      intro q hq
+      rcases List.mem_append.mp hq with hq | hq
+      · exact hp2 q hq
+      · rw [List.mem_singleton.mp hq, SWF]; trivial
+    have hb1 : bucketAt path (visit limit a path k (some v) 0).dst = some (s, pre ++ [(k, SVal.val v)]) := by
+      rw [hd]; exact bucketAt_setBucketAt_same _ hb
+    have := ih path _ s _ he hwf1 hb1 hs' (fun q hq => hw q (List.mem_cons_of_mem _ hq)) hk4
+      (fun hp q hq => hroot hp q (List.mem_cons_of_mem _ hq))
+    rw [walkEnts.eq_2]
+    refine ⟨this.1, ?_⟩
+    rw [this.2, hd, setBucketAt_setBucketAt, List.append_assoc]
+    rfl
+  | consBkt k s' e' rest ihe ihrest =>
+    intro path a s pre ha hwf hb hs hw hk hroot
+    rw [entsKeysOK_cons] at hk
+    obtain ⟨hk1, _, hk3, hk4⟩ := hk
+    have hk3' : EntsKeysOK e' := by rw [KeysOK] at hk3; exact hk3
+    have hs' : EntsSortedP ((pre ++ [(k, SVal.bkt s' e')]) ++ rest) := by
+      rw [List.append_assoc]; exact hs
+    have hs1 := List.pairwise_append.mp hs
+    have hlt : ∀ q ∈ pre, Bytes.lt q.1 k = true := fun q hq => hs1.2.2 q hq _ (List.mem_cons_self ..)
+    have hlk : entsLookup pre k = none := entsLookup_none_of_lt hlt
+    have ⟨hp1, hp2⟩ := bucketAt_wf hwf hb
+    have hx : SWF (.bkt s' e') := hw _ (List.mem_cons_self ..)
+    have ⟨he1, he2⟩ := (swf_bkt _ _).mp hx
+    -- CreateBucket
+    have hcreate := apiCreateBucket_eq_ok (b := false) hb hk1 hlk
+    generalize hd1 : setBucketAt path (s, entsInsert k (SVal.bkt 0 []) pre) a.dst = d1 at hcreate
+    have h0 : SWF (.bkt 0 []) := (swf_bkt _ _).mpr ⟨List.Pairwise.nil, by simp⟩
+    have hwfd1 : SWF d1 := by
+      rw [← hd1]
+      exact setBucketAt_wf _ (entsInsert_sorted _ _ hp1) (entsInsert_wf h0 hp2) _ _ hwf
+    have hbd1 : bucketAt path d1 = some (s, entsInsert k (SVal.bkt 0 []) pre) := by
+      rw [← hd1]; exact bucketAt_setBucketAt_same _ hb
+    have hbkd1 : bucketAt (path ++ [k]) d1 = some (0, []) := by
+      rw [bucketAt_snoc k hbd1, entsLookup_insert_same]; simp
+    -- SetSequence
+    have hpk : path ++ [k] ≠ [] := by simp
+    have hseq := apiSetSequence_eq_ok (n := s') hbkd1 hpk
+    obtain ⟨he, hd⟩ := visit_bucket_ok (limit := limit) ha hcreate hseq
+    have hwf2 : SWF (visit limit a path k none s').dst := by
+      rw [hd]; exact setBucketAt_wf (s', []) List.Pairwise.nil (by simp) _ _ hwfd1
+    have hb2 : bucketAt (path ++ [k]) (visit limit a path k none s').dst = some (s', []) := by
+      rw [hd]; exact bucketAt_setBucketAt_same _ hbkd1
+    -- the nested bucket's entries
+    have h3 := ihe (path ++ [k]) _ s' [] he hwf2 hb2 (by simpa using he1) he2 hk3'
+      (fun hp => absurd hp hpk)
+    rw [List.nil_append, hd, setBucketAt_setBucketAt, setBucketAt_snoc k _ hwfd1 hbd1,
+      entsInsert_append k _ hlt, entsUpdate_append_last _ _ hlt, setBucketAt_nil, ← hd1,
+      setBucketAt_setBucketAt] at h3
+    -- the remaining entries
+    have hwf3 : SWF (walkEnts limit (path ++ [k]) e' (visit limit a path k none s')).dst := by
+      rw [h3.2]
+      refine setBucketAt_wf (s, pre ++ [(k, SVal.bkt s' e')]) (List.pairwise_append.mp hs').1 ?_ _ _ hwf
+      intro q hq
+      rcases List.mem_append.mp hq with hq | hq
+      · exact hp2 q hq
+      · rw [List.mem_singleton.mp hq]; exact hx
+    have hb3 : bucketAt path (walkEnts limit (path ++ [k]) e' (visit limit a path k none s')).dst
+        = some (s, pre ++ [(k, SVal.bkt s' e')]) := by
+      rw [h3.2]; exact bucketAt_setBucketAt_same _ hb
+    have := ihrest path _ s _ h3.1 hwf3 hb3 hs' (fun q hq => hw q (List.mem_cons_of_mem _ hq)) hk4
+      (fun hp q hq => hroot hp q (List.mem_cons_of_mem _ hq))
+    rw [walkEnts.eq_3, walkBucket]
+    refine ⟨this.1, ?_⟩
+    rw [this.2, h3.2, setBucketAt_setBucketAt, List.append_assoc]
+    rfl
+
+theorem walkEnts_commits_unlimited : ∀ (ents : Ents) (path : List Bytes) (a : Acc),
+    (walkEnts 0 path ents a).commits = a.commits := by
+  intro ents
+  induction ents using ents_induction with
+  | nil => intro path a; rw [walkEnts.eq_1]
+  | consVal k v rest ih =>
+    intro path a; rw [walkEnts.eq_2, ih, visit_commits_unlimited]
+  | consBkt k s e rest ihe ihrest =>
+    intro path a; rw [walkEnts.eq_3, walkBucket, ihrest, ihe, visit_commits_unlimited]
 
 end Bolt
